@@ -94,13 +94,20 @@ def check(ctx):
             m = P.methods.get(name)
             ok, det = False, None
             if m is not None:
-                rets = [n for n in own_nodes(m.node) if isinstance(n, ast.Return)]
-                if len(rets) == 1 and isinstance(rets[0].value, ast.Call):
-                    c = rets[0].value
-                    det = norm(c)
-                    a = [norm(x) for x in c.args]
+                # the dunder is followed (pvs/smallstep.py, private helpers of the class included): what it returns must be
+                # CompositeParameter(<left>, <right>, operator.<op>) with the operands in the order of the expression
+                from ..smallstep import Machine as _SM, Opaque as _SO, follow_private_methods as _fpm, module_constants as _mc, render as _rd
+                env_ = dict(_mc(m.module.tree))
+                params_ = [a_.arg for a_ in m.node.args.args]
+                if len(params_) != 2:
+                    raise AnalysisError(f"Parameter.{name} takes {params_}")
+                env_.update({params_[0]: _SO("self"), params_[1]: _SO("other")})
+                kind_, val_ = _SM(env_, lambda t: NotImplemented, _fpm(P), fuel=8, undecided=lambda t: None).run_function(m.node)
+                det = _rd(val_)[:120]
+                if kind_ == "return" and isinstance(val_, _SO) and val_.parts and val_.parts[0] == "call":
+                    a = [_rd(x) for x in val_.parts[2]] + [f"{k_}={_rd(v_)}" for k_, v_ in val_.parts[3].items()]
                     want = ["other", "self", f"operator.{opn}"] if refl else ["self", "other", f"operator.{opn}"]
-                    ok = getattr(c.func, "id", "") == "CompositeParameter" and a == want
+                    ok = val_.parts[1] == "CompositeParameter" and a == want
             ctx.ob("R16.1", f"Parameter.{name}", ok, detail=det, where=f"{P.fq}.{name}", construct=name,
                    loc=loc(m, m.node) if m else "", message=f"Parameter.{name} is {det}",
                    consequence=f"`{'2 ' + DUNDER[opn] + ' P' if refl else 'P ' + DUNDER[opn] + ' 2'}` evaluates with swapped operands or another operator")
@@ -221,11 +228,52 @@ def check(ctx):
            message=f"the cache key of a cached parameter ignores {missing or 'self.kwargs'}",
            consequence="a cached (time-dependent) parameter evaluated at different z (or t) returns the value cached for another "
                        "argument: the composite no longer equals the pointwise arithmetic of its operands")
-    call_args = [norm(a) for n in own_nodes(fc.node) if isinstance(n, ast.Call) and norm(n.func) == "self._hash_args" for a in n.args]
-    ev_args = [[norm(a) for a in n.args] for n in own_nodes(fc.node) if isinstance(n, ast.Call) and norm(n.func) == "self._evaluate"]
-    ok = call_args == ["x", "y", "z", "t"] and ev_args and all(a == ["x", "y", "z", "t"] for a in ev_args)
-    ctx.ob("R16.8", "__call__ hashes and evaluates the same (x, y, z, t)", ok, detail={"hash": call_args, "evaluate": ev_args}, where=fc.fq,
-           construct="__call__ cache protocol", loc=loc(fc, fc.node), message=f"hash args {call_args}, evaluate args {ev_args}",
+    # __call__ followed (pvs/smallstep.py; private helpers included) with a model cache: caching on with the key absent / present,
+    # caching off.  _hash_args and _evaluate are the two primitives.
+    from ..run_trace import _RunMachine, RunTrace
+    from ..smallstep import Opaque as _SO, follow_private_methods as _fpm, module_constants as _mc, render as _rd
+    cparams = [a_.arg for a_ in fc.node.args.args + fc.node.args.kwonlyargs]
+    if cparams != ["self", "x", "y", "z", "t"]:
+        raise AnalysisError(f"Parameter.__call__ takes {cparams}")
+    problems, seen = [], {}
+    for use_cache, present in ((True, False), (True, True), (False, False)):
+        log = {"hash": [], "evaluate": []}
+
+        def prim(m_, node, name, args, kwargs, log=log):
+            if name == "self._hash_args":
+                log["hash"].append([_rd(x) for x in args] + [f"{k_}={_rd(v_)}" for k_, v_ in kwargs.items()])
+                return ("key",) + tuple(_rd(x) for x in args)
+            if name == "self._evaluate":
+                log["evaluate"].append([_rd(x) for x in args] + [f"{k_}={_rd(v_)}" for k_, v_ in kwargs.items()])
+                return _SO("value of (" + ", ".join(_rd(x) for x in args) + ")")
+            return NotImplemented
+        hook = _fpm(P, prim)
+        env_ = dict(_mc(fc.module.tree))
+        env_.update({"self": _SO("self"), "x": _SO("x"), "y": _SO("y"), "z": _SO("z"), "t": _SO("t")})
+        mach = _RunMachine(env_, lambda t_: NotImplemented, lambda m_, n_, nm_, a_, k_: prim(m_, n_, nm_, a_, k_) if nm_ in ("self._hash_args", "self._evaluate") else hook(m_, n_, nm_, a_, k_),
+                           fuel=16, undecided=lambda t_: None)
+        key = ("key", "x", "y", "z", "t")
+        cache = {key: _SO("stored value")} if present else {("key", "x", "y", "z", "t2"): _SO("value for another t")}
+        mach.self_state = {"_use_cache": use_cache, "_cache": cache}
+        mach.trace = RunTrace({})
+        kind_, val_ = mach.run_function(fc.node)
+        tag = f"caching {'on' if use_cache else 'off'}, key {'present' if present else 'absent'}"
+        seen[tag] = {"returns": _rd(val_)[:80], **log}
+        if kind_ != "return":
+            problems.append(f"[{tag}] raises {val_}")
+            continue
+        full = ["x", "y", "z", "t"]
+        if any(a_ != full for a_ in log["hash"] + log["evaluate"]):
+            problems.append(f"[{tag}] hash args {log['hash']}, evaluate args {log['evaluate']}")
+        if use_cache and present and (_rd(val_) != "stored value" or log["evaluate"]):
+            problems.append(f"[{tag}] returns {_rd(val_)[:60]} after {len(log['evaluate'])} evaluation(s)")
+        if use_cache and not present and (_rd(val_) != "value of (x, y, z, t)" or _rd(cache.get(key)) != "value of (x, y, z, t)" or len(log["evaluate"]) != 1):
+            problems.append(f"[{tag}] returns {_rd(val_)[:60]}, stores {_rd(cache.get(key))[:60]}")
+        if not use_cache and (_rd(val_) != "value of (x, y, z, t)" or len(cache) != 1 or log["hash"]):
+            problems.append(f"[{tag}] returns {_rd(val_)[:60]}; the cache holds {len(cache)} entr(ies)")
+    ctx.ob("R16.8", "__call__ hashes and evaluates the same (x, y, z, t): a hit returns the stored value, a miss evaluates once and stores "
+                    "under that key, caching off never touches the cache", not problems, detail=seen, where=fc.fq,
+           construct="__call__ cache protocol", loc=loc(fc, fc.node), message="; ".join(problems[:3]),
            consequence="the value stored under a key was computed for other arguments")
     leaf_equality(ctx, P)
     kwargs_untouched(ctx, P)
